@@ -3,6 +3,7 @@ C08 — channel bindings form a one-to-one map within the valid number range.
 -/
 import TurnModel.Lemmas.ServerInv
 import TurnModel.Lemmas.ServerHandlers
+import TurnModel.Gen.Consts
 namespace Turn.C08
 open Turn.Srv
 
@@ -120,5 +121,11 @@ example : (step cfg0 (run cfg0 init hist0).1 (.msg k0 100 (.chanBind 3 okCred (.
 set_option maxRecDepth 8000 in
 example : (step cfg0 (run cfg0 init hist0).1 (.msg k0 100 (.chanBind 3 okCred (.val 0x4000) (.val ⟨⟨false, 9⟩, 9000⟩)))).2 =
     [.resp k0 "ChannelBind" true 0 3 {}] := by decide
+
+
+/-- regenerated: the valid range in today's source is the model's `chanValid` range 0x4000–0x7FFF -/
+theorem range_regenerated : Gen.Consts.proto_MinChannelNumber = 0x4000 ∧ Gen.Consts.proto_MaxChannelNumber = 0x7FFF ∧
+    ∀ n, chanValid n = (decide (0x4000 ≤ n) && decide (n ≤ 0x7FFF)) := by
+  refine ⟨by decide, by decide, fun n => rfl⟩
 
 end Turn.C08
